@@ -58,6 +58,13 @@ func VerifH_C15_wakeup() {
 		rj.OwnerReferences = []metav1.OwnerReference{{Kind: execution.KindJobConfig, Name: "jc", UID: "uid1", Controller: &ctrl}}
 		rj.Labels = map[string]string{jobconfig.LabelKeyJobConfigUID: "uid1"}
 	}
+	if vz.Bool("beingDeleted") {
+		// a Job that is being deleted (finalizer pending) still produces events that matter:
+		// its deletion is what frees the slot / changes the counts
+		t := metav1.NewTime(vz.InstantNear("deletionTimestamp"))
+		rj.DeletionTimestamp = &t
+		vz.Cover("job-being-deleted")
+	}
 	switch vz.Choice("event", 4) {
 	case 0:
 		h.OnAdd(rj)
